@@ -1119,6 +1119,42 @@ def worker(mode: str, k: int, n: int, seed: int, tier: str) -> None:
                 for l in af:
                     if PROP[j][l] and PROP[i][l] is False:
                         v("proper_subtype_trans", [i, j, l], "proper: a <: b and b <: c but not a <: c (all Any-free)")
+        # ---- guards of Properties.subtype_trans_guarded / meet_lower_guarded / meet_comm_equiv_guarded, evaluated by the
+        # EXTRACTED functions on the real class table; a type without a model term is outside the guard by definition
+        terms = [tok(W[i]) for i in range(m)]
+        mod = [i for i in range(m) if terms[i] is not None]
+        gstat = {"table_guard": run_model(["tableguard"])[0] == "true", "types_modelled": len(mod)}
+        tgv = run_model(["typeguard " + " ".join(terms[i]) for i in mod])     # type: ignore[arg-type]
+        gstat["types_type_guard_true"] = sum(1 for x in tgv if x == "true")
+        prem = [(i, j, l) for i in mod for j in mod if i != j and SUB[i][j] for l in mod if SUB[j][l] and SUB[i][l] is not None]
+        gres = run_model(["transguard " + " ".join(terms[i] + terms[j] + terms[l]) for (i, j, l) in prem])   # type: ignore[operator]
+        gstat["trans_triples_premises_true_modelled"] = len(prem)
+        gstat["trans_triples_guard_true"] = sum(1 for x in gres if x == "true")
+        gstat["trans_counterexamples_modelled"] = sum(1 for (i, j, l) in prem if SUB[i][l] is False)
+        gstat["trans_triples_premises_true_modelled_anyfree"] = sum(1 for (i, j, l) in prem if anyfree[i] and anyfree[j] and anyfree[l])
+        gstat["trans_counterexamples_modelled_anyfree"] = sum(1 for (i, j, l) in prem if SUB[i][l] is False and anyfree[i] and anyfree[j] and anyfree[l])
+        gstat["trans_counterexamples_guard_true"] = 0
+        for (i, j, l), g in zip(prem, gres):
+            if g == "true" and SUB[i][l] is False:
+                gstat["trans_counterexamples_guard_true"] += 1
+                v("trans_guard_counterexample", [i, j, l], "trans_guard holds, a <: b and b <: c but not a <: c: contradicts Properties.subtype_trans_guarded")
+        # counterexamples with a type outside the modelled language (guard false by definition)
+        gstat["trans_counterexamples_all"] = sum(1 for x in viol if x["law"] == "subtype_trans")
+        mpairs = [(i, j) for i in mod for j in mod]
+        mres = run_model(["meetguard " + " ".join(terms[i] + terms[j]) for (i, j) in mpairs])                  # type: ignore[operator]
+        mg = {pq for pq, g in zip(mpairs, mres) if g == "true"}
+        gstat["meet_pairs_modelled"] = len(mpairs)
+        gstat["meet_pairs_guard_true"] = len(mg)
+        gstat["meet_counterexamples_all"] = 0
+        gstat["meet_counterexamples_guard_true"] = 0
+        for x in list(viol):
+            if x["law"] in ("meet_lower_l", "meet_lower_r", "meet_comm_equiv"):
+                gstat["meet_counterexamples_all"] += 1
+                i, j = WN.index(x["types"][0]), WN.index(x["types"][1])
+                if (i, j) in mg:
+                    gstat["meet_counterexamples_guard_true"] += 1
+                    v("meet_guard_counterexample", [i, j], f"meet_guard holds but {x['law']} fails: contradicts Properties.meet_lower_guarded / meet_comm_equiv_guarded")
+        out["guards"] = gstat
         # replay of the Coq witness Properties.subtype_trans_refuted on real mypy
         try:
             wa, wb, wc = (U[core.index(a)] for a in ("Uno", "Union[Literal[Uno.X], NoReturn]", "Literal[Uno.X]"))
@@ -1381,6 +1417,13 @@ def run(ctx: Any) -> None:
             ctx.cov["S_flag_settings"] = r.get("flag_settings")
         if md == "subuni":
             ctx.cov["S_sub_universes"] = r.get("S_sub_universes")
+        if md == "laws":
+            g = r.get("guards") or {}
+            ctx.cov["guards_evaluated_by_extracted_code"] = g
+            if not g.get("table_guard"):
+                ctx.broke("C", "table_guard", "the table part of trans_guard / meet_guard is false on the real class table: "
+                                               "the guarded theorems say nothing about this build")
+            ctx.log(f"guards: {g}")
         if md != "laws":
             continue
         ctx.cov["S_universe"] = r["S_universe"]
